@@ -1,55 +1,78 @@
 ---------------------------- MODULE LinkedControl ----------------------------
-(* C18 (4): control hand-over between input (controller) modules and one       *)
-(* output module (frappy/mixins.py HasControlledBy / HasOutputModule):         *)
-(* at most one controller is marked active, the output's controlled_by names   *)
-(* exactly that one (or "self" when none is), taking over control switches the *)
-(* previous controller off.                                                    *)
+(* C18 (4): control hand-over between input (controller) modules and their     *)
+(* output module (frappy/mixins.py HasControlledBy / HasOutputModule).  A node *)
+(* has one or two outputs, each with its own group of controllers:             *)
+(*   o1 : a1 .. a<n1>  (n1 = 1..3)        o2 : b1 .. b<n2>  (n2 = 0..2)         *)
+(* Per output: at most one controller of its group is marked active, the       *)
+(* output's controlled_by names exactly that one (or "self" when none is),     *)
+(* taking over control switches the previous controller of THAT output off.    *)
+(* Frame: an operation on one output or its controllers never changes the      *)
+(* control state of the other output, nor of modules of other nodes that live  *)
+(* in the same process (foreign).                                              *)
 EXTENDS Naturals, FiniteSets, TLC
 
-CONSTANTS Ctls        \* all controller names, e.g. {"c1", "c2", "c3"}
+CONSTANTS Layouts     \* subset of {10, 20, 30, 11, 21, 22}: code 10 * n1 + n2
 
-VARIABLES n,        \* the group: controllers c1 .. cn are attached to the output
+Ctls == {"a1", "a2", "a3", "b1", "b2"}
+Outs == {"o1", "o2"}
+OutOf(c) == IF c \in {"a1", "a2", "a3"} THEN "o1" ELSE "o2"
+Num(c) == CASE c \in {"a1", "b1"} -> 1 [] c \in {"a2", "b2"} -> 2 [] c = "a3" -> 3
+
+VARIABLES lay,      \* the layout code, fixed in a behaviour
           active,   \* [Ctls -> BOOLEAN]  control_active of each controller
-          cby       \* controlled_by of the output: "self" or a controller name
-cvars == <<n, active, cby>>
+          cby,      \* [Outs -> name]     controlled_by of each output: "self" or a controller
+          foreign   \* TRUE: the control state of other nodes' modules in the process is as they left it
+cvars == <<lay, active, cby, foreign>>
 
-Num(c) == CASE c = "c1" -> 1 [] c = "c2" -> 2 [] c = "c3" -> 3
-Group == {c \in Ctls : Num(c) <= n}
-Only(c) == [d \in Ctls |-> d = c]
-None == [d \in Ctls |-> FALSE]
+Size(o) == IF o = "o1" THEN lay \div 10 ELSE lay % 10
+Group(o) == {c \in Ctls : OutOf(c) = o /\ Num(c) <= Size(o)}
+Built == Group("o1") \cup Group("o2")
+BuiltOuts == {o \in Outs : Size(o) > 0}
 
-CInit == /\ n \in 1 .. Cardinality(Ctls)
-         /\ active = None /\ cby = "self"
+CInit == /\ lay \in Layouts
+         /\ active = [c \in Ctls |-> FALSE]
+         /\ cby = [o \in Outs |-> "self"]
+         /\ foreign = TRUE
 
-TakeOver(c) ==            \* change <c>:target / c.write_target(): c takes control
-    /\ c \in Group
-    /\ active' = Only(c) /\ cby' = c /\ UNCHANGED n
+(* new control state of output o: controller w (or nobody, w = "self") is in control *)
+InControl(o, w) == /\ active' = [d \in Ctls |-> IF OutOf(d) = o THEN d = w ELSE active[d]]
+                   /\ cby' = [cby EXCEPT ![o] = w]
 
-SelfControl ==            \* change <out>:target / out.write_target(): manual mode
-    /\ active' = None /\ cby' = "self" /\ UNCHANGED n
+TakeOver(c) ==            \* change <c>:target / c.write_target(): c takes control of its output
+    /\ c \in Built
+    /\ InControl(OutOf(c), c) /\ UNCHANGED <<lay, foreign>>
 
-UpdateTarget(c) ==        \* driver of c: out.update_target(c, v)
-    /\ c \in Group
-    /\ IF cby = c
+SelfControl(o) ==         \* change <o>:target / o.write_target(): manual mode
+    /\ o \in BuiltOuts
+    /\ InControl(o, "self") /\ UNCHANGED <<lay, foreign>>
+
+UpdateTarget(c) ==        \* driver of c: <its output>.update_target(c, v)
+    /\ c \in Built
+    /\ IF cby[OutOf(c)] = c
        THEN UNCHANGED <<active, cby>>     \* the controlling module updates the output value
        ELSE \* the property is silent on whether this is a take-over: the control state
             \* may stay, or c takes over, or the output falls back to manual mode
             \/ UNCHANGED <<active, cby>>
-            \/ active' = Only(c) /\ cby' = c
-            \/ active' = None /\ cby' = "self"
-    /\ UNCHANGED n
+            \/ InControl(OutOf(c), c)
+            \/ InControl(OutOf(c), "self")
+    /\ UNCHANGED <<lay, foreign>>
 
 CNext == \/ \E c \in Ctls : TakeOver(c) \/ UpdateTarget(c)
-         \/ SelfControl
+         \/ \E o \in Outs : SelfControl(o)
 CSpec == CInit /\ [][CNext]_cvars
 
 (* ---- properties ---- *)
-TypeOK == active \in [Ctls -> BOOLEAN] /\ cby \in Group \cup {"self"}
-AtMostOne == Cardinality({c \in Ctls : active[c]}) <= 1
-NamesTheActive == /\ \A c \in Ctls : active[c] => cby = c
-                  /\ cby # "self" => active[cby]
-OutsideGroupInactive == \A c \in Ctls \ Group : ~active[c]
+TypeOK == /\ active \in [Ctls -> BOOLEAN]
+          /\ \A o \in Outs : cby[o] \in Group(o) \cup {"self"}
+AtMostOne == \A o \in Outs : Cardinality({c \in Group(o) : active[c]}) <= 1
+NamesTheActive == \A o \in Outs : /\ \A c \in Group(o) : active[c] => cby[o] = c
+                                  /\ cby[o] # "self" => active[cby[o]]
+NotBuiltInactive == \A c \in Ctls \ Built : ~active[c]
+ForeignIntact == foreign
 HandOver == [][\A c \in Ctls : TakeOver(c) =>
-                 /\ \A d \in Ctls \ {c} : ~active'[d]
-                 /\ active'[c] /\ cby' = c]_cvars
+                 /\ \A d \in Group(OutOf(c)) \ {c} : ~active'[d]
+                 /\ active'[c] /\ cby'[OutOf(c)] = c]_cvars
+Same(o) == cby'[o] = cby[o] /\ \A d \in Ctls : OutOf(d) = o => active'[d] = active[d]
+Frame == [][/\ \A c \in Ctls : (TakeOver(c) \/ UpdateTarget(c)) => \A o \in Outs \ {OutOf(c)} : Same(o)
+            /\ \A p \in Outs : SelfControl(p) => \A o \in Outs \ {p} : Same(o)]_cvars
 =============================================================================
